@@ -20,7 +20,7 @@ void __assert_fail(const char * e, const char * f, unsigned l, const char * fn) 
 }
 /* a wild access or division inside the parser is a verdict on that input, not the end of the check */
 static void trap_signal(int sig) {
-  if (trapping) { snprintf(trap_msg, sizeof trap_msg, "signal %d (%s) inside the parser", sig, strsignal(sig)); siglongjmp(trap, 1); }
+  if (trapping) { if (sig == SIGALRM) snprintf(trap_msg, sizeof trap_msg, "the parser did not return within 5 s (it does not terminate on this value)"); else snprintf(trap_msg, sizeof trap_msg, "signal %d (%s) inside the parser", sig, strsignal(sig)); siglongjmp(trap, 1); }
   _exit(67);
 }
 
@@ -47,21 +47,23 @@ static void parser_one(const char * s) {
   setenv("VERIF_CPU_LIST", s, 1);
   int g = -99;
   trapping = 1;
+  alarm(5);
   if (sigsetjmp(trap, 1) == 0) g = myth_parse_cpu_list("VERIF_CPU_LIST", got, N_MAX_CPUS);
   else g = -98;
+  alarm(0);
   trapping = 0;
   parser_cases++; SQ.states++; SQ.evaluations++; SQ.transitions += strlen(s) + 1;
   char key[120]; int o = snprintf(key, sizeof key, "MYTH_CPU_LIST=\"");
   for (const char * q = s; *q && o < 100; q++) o += (*q == '\n') ? snprintf(key + o, sizeof key - o, "\\n") : snprintf(key + o, sizeof key - o, "%c", *q);
   snprintf(key + o, sizeof key - o, "\"");
-  if (g == -98) { if (SQ.nfound < 6) sq_found(key, "", "the parser aborts instead of rejecting the value: %s", trap_msg); return; }
+  if (g == -98) { if (SQ.nfound < 6) sq_found(key, "", "the parser aborts or hangs instead of rejecting the value: %s", trap_msg); return; }
   int w = ref_parse(s, want, N_MAX_CPUS);
   if (w == -2) return;
   if (w == -1) { if (g != -1 && SQ.nfound < 12) sq_found(key, "", "malformed list accepted (parser returned %d entries)", g); return; }
   if (g != w || memcmp(got, want, sizeof(int) * (w > 0 ? w : 0))) { if (SQ.nfound < 12) sq_found(key, "", "well-formed list parsed to %d entries, reference says %d", g, w); }
 }
 static void parser_all(int maxlen) {
-  signal(SIGSEGV, trap_signal); signal(SIGBUS, trap_signal); signal(SIGFPE, trap_signal);
+  signal(SIGSEGV, trap_signal); signal(SIGBUS, trap_signal); signal(SIGFPE, trap_signal); signal(SIGALRM, trap_signal);   /* no runtime in this process yet: SIGALRM is ours */
   static const char A[] = "019-:, \nx";
   char buf[16]; int idx[16];
   parser_one("");
@@ -261,6 +263,41 @@ done:
   sq_detail("%ld init/fini histories to depth %d + worker counts 1..64 + two long histories (300/600 and 150 cycles in one process); ", hist_cases, depth);
 }
 
+/* the NULL-attribute ("global") setters before or after initialisation, mixed with the other attribute calls a program makes: the
+   requested worker count must survive them */
+static void global_attr_cases(void) {
+  long cases = 0;
+  for (int nw = 1; nw <= 3; nw++) for (int mode = 0; mode < 3; mode++) {
+    int pfd[2]; if (pipe(pfd)) continue; fflush(NULL);
+    pid_t pid = fork();
+    if (pid == 0) {
+      close(pfd[0]); char m[200] = ""; int bad = 0;
+      setenv("MYTH_NUM_WORKERS", "5", 1);                       /* the environment says something else */
+      myth_globalattr_set_n_workers(NULL, nw); myth_globalattr_set_bind_workers(NULL, 0);
+      myth_thread_attr_t a; memset(&a, 0x5A, sizeof a);
+      if (mode == 0) myth_thread_attr_init(&a);                  /* before initialisation */
+      myth_init();
+      if (mode == 1) myth_thread_attr_init(&a);                  /* after initialisation */
+      if (mode == 2) { size_t g = 0, ss = 0; int cf = 0; myth_globalattr_get_guardsize(NULL, &g); myth_globalattr_get_stacksize(NULL, &ss); myth_globalattr_get_child_first(NULL, &cf); myth_thread_attr_init(&a); }
+      int q = myth_get_num_workers(), w = myth_get_worker_num();
+      if (q != nw || w < 0 || w >= q) { bad = 1; snprintf(m, sizeof m, "runs with %d workers (worker_num %d), %d were requested with myth_globalattr_set_n_workers(NULL, %d)", q, w, nw, nw); }
+      if (!bad) { myth_thread_t t; void * r = 0; myth_create_ex(&t, &a, nop, (void *)9); myth_join(t, &r); if (r != (void *)9) { bad = 1; snprintf(m, sizeof m, "create through the attribute object + join delivered %p", r); } }
+      if (!bad) { int k = occupy_all_workers(nw); if (k != nw) { bad = 1; snprintf(m, sizeof m, "%d workers requested, only %d of %d spinning threads saw all of them running", nw, k, nw); } }
+      if (!bad) { myth_fini(); int c = count_os_threads(); if (c != 1) { bad = 1; snprintf(m, sizeof m, "%d OS threads remain after myth_fini", c); } }
+      if (write(pfd[1], m, strlen(m) + 1) < 0) {}
+      _exit(bad);
+    }
+    close(pfd[1]);
+    int st; int hung = sq_wait_child(pid, 90, &st); char msg[300] = ""; ssize_t k = read(pfd[0], msg, sizeof msg - 1); if (k < 0) k = 0; msg[k] = 0; close(pfd[0]);
+    cases++; SQ.states++; SQ.evaluations++; SQ.transitions += 6;
+    if (hung || !WIFEXITED(st) || WEXITSTATUS(st)) {
+      char key[160]; snprintf(key, sizeof key, "global attributes: set_n_workers(NULL, %d) with MYTH_NUM_WORKERS=5, thread attribute object initialised %s", nw, mode == 0 ? "before myth_init" : mode == 1 ? "after myth_init" : "after myth_init and three global getters");
+      sq_found(key, "", "%s", hung ? "the process hangs" : !WIFEXITED(st) ? "the process crashes" : msg);
+    }
+  }
+  sq_detail("%ld global-attribute cases; ", cases);
+}
+
 /* the CPU table is rebuilt at every initialisation: building it again must give the table of the first time (a differential oracle: the
    state reached from the initial state vs. the state reached from an initialised one), for as many initialisations as one likes */
 static void cpu_table_histories(int cycles) {
@@ -301,7 +338,7 @@ int main(int argc, char ** argv) {
       if (rc || nw != 2) { char key[80]; snprintf(key, sizeof key, "MYTH_CPU_LIST=\"%s\" with MYTH_BIND_WORKERS=1", lists[i][0] == '\n' ? "\\n" : lists[i]); if (lists[i][1] == '\n') snprintf(key, sizeof key, "MYTH_CPU_LIST=\"0,\\n\" with MYTH_BIND_WORKERS=1"); sq_found(key, "", "%s", rc ? "process crashed or hung at initialisation" : "wrong worker count"); } }
     sq_detail("%ld environment-value processes; ", env_cases);
   }
-  if (!strcmp(part, "all") || !strcmp(part, "hist")) hist_all(tier ? 5 : 4);
+  if (!strcmp(part, "all") || !strcmp(part, "hist")) { global_attr_cases(); hist_all(tier ? 5 : 4); }
   SQ.distinct = SQ.states;
   return sq_end(stats);
 }
